@@ -1,65 +1,85 @@
 (* Store/Backup.v — MODEL of nervusdb-storage/src/backup.rs over the writer's I/O step stream.
-   The writer issues steps on two files: page writes to the page file and appends to the log.
+   The writer issues steps on two files: page writes to the page file, appends to the log, and the
+   close-time rewrite of the log (rewrite_as_snapshot: temp file + rename, one step here).
    A backup copies the page file as it is after step i and the log as it is after step j >= i
    (execute_backup: copy_ndb_file, then copy_wal_file; nothing stops the writer in between).
    Restore copies both files back.  Open takes the last manifest in the log, loads the segment pages it
-   names from the page file, and replays the logged transactions above the manifest's checkpoint.
-   Granularity: whole pages, whole log records; in-place updates of the property B-tree are not modelled
-   (compaction is modelled as writing fresh pages only, then logging the manifest).  Proofs: Backup_proofs.v. *)
+   names from the page file, needs the property-tree root it names, replays the logged transactions above
+   the manifest's checkpoint and all label creations.
+   Compaction = fresh segment pages, then the property tree updated IN PLACE (its root page is rewritten
+   under the still-current manifest), then the manifest record.
+   Granularity: whole pages, whole log records; torn reads inside one io::copy are not modelled.
+   Proofs: Backup_proofs.v. *)
 From NDB Require Export Base.Bytes.
 Open Scope N_scope.
 
 Inductive logrec :=
 | LTx (t : N)                                              (* a committed user transaction, number t *)
-| LManifest (refs : list (N * N)) (sunk : list N) (upto : N).
-   (* manifest switch + checkpoint: segment pages (id, content) now current; transactions `sunk` live in them;
-      recovery skips logged transactions numbered <= upto *)
+| LLabel (l : N)                                           (* label / relationship-type creation (logged in its own transaction) *)
+| LManifest (refs : list (N * N)) (prop : N) (sunk : list N) (upto : N).
+   (* manifest switch + checkpoint: segment pages (id, content) now current; property-tree root page id (0 = none);
+      transactions `sunk` live in them; recovery skips logged transactions numbered <= upto *)
 
-Inductive iostep := SPage (id c : N) | SLog (r : logrec).
+Inductive iostep := SPage (id c : N) | SLog (r : logrec) | SRewrite (recs : list logrec).
 
 Record disk := { d_pages : list (N * N); d_log : list logrec }.
 Definition disk_empty : disk := {| d_pages := []; d_log := [] |}.
 
 Definition apply_step (d : disk) (s : iostep) : disk :=
   match s with
-  | SPage id c => {| d_pages := (id, c) :: d_pages d; d_log := d_log d |}
+  | SPage id c => {| d_pages := (id, c) :: d_pages d; d_log := d_log d |}     (* newest first: an in-place write shadows the old content *)
   | SLog r => {| d_pages := d_pages d; d_log := d_log d ++ [r] |}
+  | SRewrite recs => {| d_pages := d_pages d; d_log := recs |}
   end.
 Definition apply_steps (d : disk) (ss : list iostep) : disk := fold_left apply_step ss d.
 
 Fixpoint page_lookup (id : N) (l : list (N * N)) : option N :=
   match l with [] => None | (i, c) :: t => if i =? id then Some c else page_lookup id t end.
 
+Definition mf := (list (N * N) * N * list N * N)%type.
+Definition mf0 : mf := ([], 0, [], 0).
+
 (* last manifest of the log *)
-Fixpoint last_manifest (l : list logrec) (acc : list (N * N) * list N * N) : list (N * N) * list N * N :=
+Fixpoint last_manifest (l : list logrec) (acc : mf) : mf :=
   match l with
   | [] => acc
-  | LManifest refs sunk upto :: t => last_manifest t (refs, sunk, upto)
-  | LTx _ :: t => last_manifest t acc
+  | LManifest refs prop sunk upto :: t => last_manifest t (refs, prop, sunk, upto)
+  | _ :: t => last_manifest t acc
   end.
 
 Fixpoint log_txs (l : list logrec) : list N :=
-  match l with [] => [] | LTx t :: r => t :: log_txs r | LManifest _ _ _ :: r => log_txs r end.
+  match l with [] => [] | LTx t :: r => t :: log_txs r | _ :: r => log_txs r end.
+Fixpoint log_labels (l : list logrec) : list N :=
+  match l with [] => [] | LLabel x :: r => x :: log_labels r | _ :: r => log_labels r end.
 
-(* open + dump: None = the database does not open (a segment page named by the manifest is missing or is
-   not the page the manifest was written for); Some l = the transactions whose effects are visible *)
-Definition content (d : disk) : option (list N) :=
-  let '(refs, sunk, upto) := last_manifest (d_log d) ([], [], 0) in
+(* open + dump: None = the database does not open / cannot be read (a page named by the manifest is missing or is
+   not the page the manifest was written for); Some (txs, labels, property-tree version) = what is visible *)
+Definition content (d : disk) : option (list N * list N * N) :=
+  let '(refs, prop, sunk, upto) := last_manifest (d_log d) mf0 in
   if forallb (fun '(id, c) => match page_lookup id (d_pages d) with Some c' => c' =? c | None => false end) refs
-  then Some (sunk ++ filter (fun t => upto <? t) (log_txs (d_log d)))
+  then match (if prop =? 0 then Some 0 else page_lookup prop (d_pages d)) with
+       | Some v => Some (sunk ++ filter (fun t => upto <? t) (log_txs (d_log d)), log_labels (d_log d), v)
+       | None => None end
   else None.
 
 (* ---- the writer ---- *)
-Inductive wop := WCommit | WCompact (k : nat).     (* compact writes k+1 fresh segment pages *)
+Inductive wop :=
+| WCommit
+| WLabel
+| WCompact (k : nat)      (* compact writes k+1 fresh segment pages, then the property tree in place *)
+| WClose.                 (* close(): checkpoint_on_close rewrites the log when nothing is pending *)
 
 Record wstate := {
   w_next_tx : N;          (* next transaction number *)
   w_next_page : N;        (* next fresh page id (alloc_fresh: compaction never reuses a live page) *)
-  w_refs : list (N * N);  (* current manifest *)
+  w_refs : list (N * N);  (* current manifest: segment pages *)
+  w_prop : N * N;         (* property-tree root page and its version (0,0 = none yet) *)
   w_sunk : list N;
-  w_pending : list N      (* committed, not yet compacted *)
+  w_pending : list N;     (* committed, not yet compacted *)
+  w_labels : list N
 }.
-Definition wstate_new : wstate := {| w_next_tx := 1; w_next_page := 2; w_refs := []; w_sunk := []; w_pending := [] |}.
+Definition wstate_new : wstate :=
+  {| w_next_tx := 1; w_next_page := 2; w_refs := []; w_prop := (0, 0); w_sunk := []; w_pending := []; w_labels := [] |}.
 
 Fixpoint fresh_pages (start : N) (n : nat) : list (N * N) :=
   match n with O => [] | S k => (start, start + 1000) :: fresh_pages (N.succ start) k end.
@@ -67,17 +87,29 @@ Fixpoint fresh_pages (start : N) (n : nat) : list (N * N) :=
 Definition wsteps (s : wstate) (o : wop) : list iostep * wstate :=
   match o with
   | WCommit => ([SLog (LTx (w_next_tx s))],
-                {| w_next_tx := w_next_tx s + 1; w_next_page := w_next_page s; w_refs := w_refs s; w_sunk := w_sunk s;
-                   w_pending := w_pending s ++ [w_next_tx s] |})
+                {| w_next_tx := w_next_tx s + 1; w_next_page := w_next_page s; w_refs := w_refs s; w_prop := w_prop s; w_sunk := w_sunk s;
+                   w_pending := w_pending s ++ [w_next_tx s]; w_labels := w_labels s |})
+  | WLabel => let l := N.of_nat (length (w_labels s)) in
+              ([SLog (LLabel l)],
+               {| w_next_tx := w_next_tx s; w_next_page := w_next_page s; w_refs := w_refs s; w_prop := w_prop s; w_sunk := w_sunk s;
+                  w_pending := w_pending s; w_labels := w_labels s ++ [l] |})
   | WCompact k =>
       match w_pending s with
       | [] => ([], s)                         (* compact() with no runs does nothing *)
       | _ =>
         let np := fresh_pages (w_next_page s) (S k) in
+        let next := w_next_page s + N.of_nat (S k) in
+        (* property tree: created on a fresh page the first time, afterwards its root page is rewritten in place *)
+        let '(prop, next') := if fst (w_prop s) =? 0 then ((next, 1), next + 1) else ((fst (w_prop s), snd (w_prop s) + 1), next) in
         let refs := np ++ w_refs s in
         let sunk := w_sunk s ++ w_pending s in
-        (map (fun '(id, c) => SPage id c) np ++ [SLog (LManifest refs sunk (w_next_tx s - 1))],
-         {| w_next_tx := w_next_tx s; w_next_page := w_next_page s + N.of_nat (S k); w_refs := refs; w_sunk := sunk; w_pending := [] |})
+        (map (fun '(id, c) => SPage id c) np ++ [SPage (fst prop) (snd prop)] ++ [SLog (LManifest refs (fst prop) sunk (w_next_tx s - 1))],
+         {| w_next_tx := w_next_tx s; w_next_page := next'; w_refs := refs; w_prop := prop; w_sunk := sunk; w_pending := []; w_labels := w_labels s |})
+      end
+  | WClose =>
+      match w_pending s with
+      | [] => ([SRewrite (map LLabel (w_labels s) ++ [LManifest (w_refs s) (fst (w_prop s)) (w_sunk s) (w_next_tx s - 1)])], s)
+      | _ => ([], s)                          (* runs exist only in the log: no rewrite, just fsync *)
       end
   end.
 
@@ -87,7 +119,8 @@ Fixpoint plan (s : wstate) (ops : list wop) : list iostep * wstate :=
   | o :: t => let '(a, s1) := wsteps s o in let '(b, s2) := plan s1 t in (a ++ b, s2)
   end.
 
-Definition committed (s : wstate) : list N := w_sunk s ++ w_pending s.
+(* what the source shows: committed transactions, labels, property-tree version *)
+Definition committed (s : wstate) : list N * list N * N := (w_sunk s ++ w_pending s, w_labels s, snd (w_prop s)).
 
 (* ---- backup / restore ---- *)
 (* page file as of step i, log as of step j *)
@@ -98,11 +131,13 @@ Definition restore (b : disk) : disk := b.
 
 Definition same_set (a b : list N) : bool :=
   forallb (fun x => existsb (N.eqb x) b) a && forallb (fun x => existsb (N.eqb x) a) b.
+Definition same_content (a b : list N * list N * N) : bool :=
+  let '(t1, l1, v1) := a in let '(t2, l2, v2) := b in same_set t1 t2 && same_set l1 l2 && (v1 =? v2).
 
 (* the restored database equals the source at some moment t in [i, j] *)
 Definition consistent_at_some_moment (steps : list iostep) (i j : nat) : bool :=
   match content (restore (backup steps i j)) with
   | None => false
   | Some l => existsb (fun t => match content (apply_steps disk_empty (firstn t steps)) with
-                                | Some l' => same_set l l' | None => false end) (seq i (S (j - i)))
+                                | Some l' => same_content l l' | None => false end) (seq i (S (j - i)))
   end.
